@@ -468,7 +468,7 @@ func (a *scriptedActor) Receive(c *actor.Context) {
 		}
 	case actor.Started:
 		a.rec.add(recEv{Inc: a.inc, Kind: "Started"}, true)
-		if a.inc == 1 && a.spec.Children > 0 {
+		if a.spec.Children > 0 { // every incarnation does what its Started handler does: after a restart these are duplicate spawns
 			for i := 0; i < a.spec.Children; i++ {
 				cl := a.children
 				kopts := []actor.OptFunc{actor.WithID(fmt.Sprint(i))}
@@ -506,6 +506,9 @@ func (a *scriptedActor) Receive(c *actor.Context) {
 		a.rec.add(recEv{Inc: a.inc, Kind: m.Kind.String(), ID: m.ID, Sender: sender}, true)
 		if m.Kind == itMsg {
 			userPerturb() // a Receive takes time (only in the chaos modes)
+			if c.Sender() != nil && m.ID%3 == 0 {
+				c.Respond(&uMsg{Kind: itMsg, ID: -100 - m.ID}) // answering must not disturb what the rest of the chain sees
+			}
 		}
 		switch m.Kind {
 		case itGate:
@@ -995,6 +998,13 @@ func runScript(c *caseCtx, spec *scriptSpec) (out scriptOutcome) {
 			finishScript(c, spec, &out)
 			return
 		}
+		if spec.MW > 0 {
+			// the probe's delivery is complete when the outermost layer has returned
+			waitFor(wd, func() bool {
+				all := rec.snapshotAll()
+				return len(all) > 0 && all[len(all)-1].Kind == "exit" && all[len(all)-1].Layer == 0
+			})
+		}
 		model.log = append(model.log, expEv{Inc: lastInc(model.log), Kind: "msg", ID: -7})
 		if got := e.Registry.GetPID("scripted", "a"); got == nil || !got.Equals(pid) {
 			fail("live actor not found in the registry")
@@ -1223,6 +1233,9 @@ func checkNesting(all []recEv, n int) string {
 		for l := n - 1; l >= 0; l-- {
 			if i >= len(all) || all[i].Kind != "exit" || all[i].Layer != l {
 				return fmt.Sprintf("block %d: expected exit of layer %d, got %s", blocks, l, evAt(all, i))
+			}
+			if all[i].Sender != tag {
+				return fmt.Sprintf("block %d: when layer %d returned the Context showed message/sender %q, on the way in it showed %q: inside the chain the Context must show the message and sender of that delivery", blocks, l, all[i].Sender, tag)
 			}
 			i++
 		}
